@@ -1009,48 +1009,7 @@ func (c *Ctx) c14Routes() {
 	// does a handler decode req.Body / test a decoded bool field?
 	// what a registered handler runs synchronously in its own package: its static callees and the
 	// functions it reaches through function values (mailboxActionV1(f).handle → f)
-	runs := func(h *ssa.Function) []*ssa.Function {
-		seen := map[*ssa.Function]bool{}
-		var out []*ssa.Function
-		// walk with the arguments of the call that led into each function, so that a function
-		// value handed down as a parameter or receiver (mailboxActionV1(f).handle) is followed
-		// to the function it denotes here, not to every function the call site may run
-		var walk func(g *ssa.Function, args []ssa.Value, depth int)
-		walk = func(g *ssa.Function, args []ssa.Value, depth int) {
-			if g == nil || depth > 5 || len(g.Blocks) == 0 || eng.FuncPkgPath(g) != eng.FuncPkgPath(h) {
-				return
-			}
-			if !seen[g] {
-				seen[g] = true
-				out = append(out, g)
-			}
-			for _, u := range eng.WithAnons(g) {
-				eng.EachInstr(u, func(in ssa.Instruction) {
-					call, ok := in.(*ssa.Call)
-					if !ok || call.Call.IsInvoke() {
-						return
-					}
-					if t := eng.StaticCallee(call.Common()); t != nil {
-						if !seen[t] || len(call.Call.Args) > 0 {
-							walk(t, call.Call.Args, depth+1)
-						}
-						return
-					}
-					// through a parameter of g bound at the call that led here
-					if prm, isP := call.Call.Value.(*ssa.Parameter); isP && prm.Parent() == g {
-						if pi := eng.ParamIndex(prm); pi >= 0 && pi < len(args) {
-							if t, _, ok := eng.FuncValueOf(args[pi]); ok && t != nil {
-								walk(t, call.Call.Args, depth+1)
-							}
-						}
-					}
-				})
-			}
-		}
-		walk(h, nil, 0)
-		sortFuncs(out)
-		return out
-	}
+	runs := c.handlerRuns
 	bodyField := func(h *ssa.Function) (decodes bool, needs []string) {
 		fns := runs(h)
 		for _, g := range fns {
@@ -1683,10 +1642,7 @@ func (c *Ctx) c14RouteEffects() {
 			return cc != nil && eng.IsCallTo(cc, obj)
 		}
 		reached, inHandler := false, false
-		for g := range p.SyncReach(rt.handler) {
-			if eng.FuncPkgPath(g) != eng.FuncPkgPath(rt.handler) {
-				continue
-			}
+		for _, g := range c.handlerRuns(rt.handler) {
 			g := g
 			eng.EachInstr(g, func(in ssa.Instruction) {
 				if isOp(in) {
@@ -1772,12 +1728,15 @@ func (c *Ctx) c14ErrPropagate(units []*ssa.Function) {
 			}
 		}
 	}
+	c.errLenient = true
+	defer func() { c.errLenient = false }()
 	nH := c.errNotSwallowedCalls(rule, hfns, func(call *ssa.Call) (string, bool) {
 		if !ofIface(call.Common(), mgr) || !retErr(call) {
 			return "", false
 		}
 		return "Manager." + call.Call.Method.Name(), true
 	}, true, "the client is told the operation succeeded although the message manager reported a failure")
+	c.errLenient = false
 	var sfns []*ssa.Function
 	if smT := p.Named("pkg/message", "StoreManager"); smT != nil {
 		for _, fn := range pkgFuncs(p, "pkg/message") {
@@ -1799,4 +1758,50 @@ func (c *Ctx) c14ErrPropagate(units []*ssa.Function) {
 		return "Store." + call.Call.Method.Name(), true
 	}, true, "the manager reports success although the store failed: the API then shows a state the store does not have")
 	r.Floor(rule, "Manager calls in handlers + Store calls in StoreManager", nH+nS, 6)
+}
+
+// handlerRuns: what a registered handler runs synchronously in its own package — its static
+// callees and the functions it reaches through function values handed down as a parameter or a
+// receiver (mailboxActionV1(f).handle → f).
+func (c *Ctx) handlerRuns(h *ssa.Function) []*ssa.Function {
+	seen := map[*ssa.Function]bool{}
+	var out []*ssa.Function
+	// walk with the arguments of the call that led into each function, so that a function
+	// value handed down as a parameter or receiver (mailboxActionV1(f).handle) is followed
+	// to the function it denotes here, not to every function the call site may run
+	var walk func(g *ssa.Function, args []ssa.Value, depth int)
+	walk = func(g *ssa.Function, args []ssa.Value, depth int) {
+		if g == nil || depth > 5 || len(g.Blocks) == 0 || eng.FuncPkgPath(g) != eng.FuncPkgPath(h) {
+			return
+		}
+		if !seen[g] {
+			seen[g] = true
+			out = append(out, g)
+		}
+		for _, u := range eng.WithAnons(g) {
+			eng.EachInstr(u, func(in ssa.Instruction) {
+				call, ok := in.(*ssa.Call)
+				if !ok || call.Call.IsInvoke() {
+					return
+				}
+				if t := eng.StaticCallee(call.Common()); t != nil {
+					if !seen[t] || len(call.Call.Args) > 0 {
+						walk(t, call.Call.Args, depth+1)
+					}
+					return
+				}
+				// through a parameter of g bound at the call that led here
+				if prm, isP := call.Call.Value.(*ssa.Parameter); isP && prm.Parent() == g {
+					if pi := eng.ParamIndex(prm); pi >= 0 && pi < len(args) {
+						if t, _, ok := eng.FuncValueOf(args[pi]); ok && t != nil {
+							walk(t, call.Call.Args, depth+1)
+						}
+					}
+				}
+			})
+		}
+	}
+	walk(h, nil, 0)
+	sortFuncs(out)
+	return out
 }
